@@ -3,6 +3,7 @@ package c06
 import (
 	"encoding/json"
 	"fmt"
+	"sort"
 	"testing"
 
 	"pgregory.net/rapid"
@@ -145,6 +146,52 @@ func drawScript(rt *rapid.T) sess.Script {
 				}
 			}
 			sc.Steps = append(sc.Steps, sess.Step{S: s, K: "ops", Ops: ops})
+		}
+	}
+	// operation ids are opaque to the protocol: in one script in three, one id of a session that
+	// is not its first is replaced by 0 and another one by 2^61+1 (consistently within the script)
+	if rapid.IntRange(0, 2).Draw(rt, "extreme-ids?") == 0 {
+		bySess := map[int][]uint64{}
+		for _, st := range sc.Steps {
+			for _, o := range st.Ops {
+				bySess[st.S] = append(bySess[st.S], o.ID)
+			}
+		}
+		for sidx, ids := range bySess {
+			_ = sidx
+			if len(ids) < 3 {
+				continue
+			}
+		}
+		var cands []int
+		for sidx, ids := range bySess {
+			if len(ids) >= 3 {
+				cands = append(cands, sidx)
+			}
+		}
+		sort.Ints(cands)
+		if len(cands) > 0 {
+			sidx := cands[rapid.IntRange(0, len(cands)-1).Draw(rt, "extreme-session")]
+			ids := bySess[sidx]
+			a := ids[rapid.IntRange(1, len(ids)-1).Draw(rt, "zero-id-at")]
+			b := ids[rapid.IntRange(0, len(ids)-1).Draw(rt, "max-id-at")]
+			for si, st := range sc.Steps {
+				if st.S != sidx {
+					continue
+				}
+				for oi, o := range st.Ops {
+					c := *o
+					switch {
+					case o.ID == a:
+						c.ID = 0
+					case o.ID == b:
+						c.ID = 1<<61 + 1 // (ids from 2^62 are reserved for the harness's barriers)
+					default:
+						continue
+					}
+					sc.Steps[si].Ops[oi] = &c
+				}
+			}
 		}
 	}
 	sess.DrawClock(rt, &sc, 5)
